@@ -2737,3 +2737,44 @@ breaker('C08', 'iterator-opens-file-without-lock', 'C08.R11', FSPY,
             # place under this lock: don't open the name in between)
             return FileIterator(self._file_name, start, stop)''',
         '''        return FileIterator(self._file_name, start, stop)''')
+
+# ---- F75 .. F77, round 8 rules ----------------------------------------------
+breaker('C06', 'txn-find-stops-at-39', 'C06.R13', FSPY, 'FileStorage._txn_find',
+        '''        while pos > 4:''', '''        while pos > 39:''')
+breaker('C14', 'weakref-foreign-db-unchecked', 'C14.R13', 'ZODB/serialize.py',
+        'ObjectWriter.persistent_id',
+        '''                    if self._jar.db().databases.get(
+                            obj.database_name) is not otherdb:''',
+        '''                    if False:''')
+breaker('C04', 'begin-explicit-tid-not-basis', 'C04.R11', BSPY,
+        'BaseStorage.tpc_begin',
+        '''                self._ts = TimeStamp(tid)
+                self._tid = tid''',
+        '''                self._tid = tid''')
+breaker('C13', 'is-blob-record-cheap-test-first', 'C13.R16', BLOBPY,
+        'BlobStorageMixin.is_blob_record',
+        '''        if record:''',
+        '''        if record and b'ZODB.blob' in record:''')
+breaker('C15', 'totimestamp-local-fields', 'C15.R6', DBPY, 'toTimeStamp',
+        '''    utc_struct = dt.utctimetuple()
+    # if this is a leapsecond, this will probably fail.  That may be a good
+    # thing: leapseconds are not really accounted for with serials.
+    args = utc_struct[:5] + (utc_struct[5] + dt.microsecond / 1000000.0,)
+    return TimeStamp(*args)''',
+        '''    return TimeStamp(dt.year, dt.month, dt.day, dt.hour, dt.minute,
+                     dt.second + dt.microsecond / 1000000.0)''')
+breaker('C07', 'fs-pack-gc-or-default', 'C07.R11', FSPY, 'FileStorage.pack',
+        '''        if gc is None:
+            gc = self._pack_gc''',
+        '''        gc = gc or self._pack_gc''')
+breaker('C10', 'resolved-record-dumps-class-only', 'C10.R8', CRPY,
+        'tryToResolveConflict',
+        '''        pickler.dump(meta)''', '''        pickler.dump(klass)''')
+breaker('C10', 'ds-loadserial-guarded-by-pack', 'C16.R5', DSPY,
+        'DemoStorage.loadSerial',
+        '''        except ZODB.POSException.POSKeyError:
+            return self.base.loadSerial(oid, serial)''',
+        '''        except ZODB.POSException.POSKeyError:
+            if serial <= self._packed_to:
+                raise
+            return self.base.loadSerial(oid, serial)''')
